@@ -1043,25 +1043,26 @@ func replay(c *vk.Ctx, refs *refStore) {
 	if cs.Path == "" {
 		cs.Path = "init"
 	}
-	rr, err := refs.get(syncOf(cs.Nodes))
+	svc, builds, closeFn, eff, err := buildRealEff(cs.Nodes, cs.Self, cs.Path)
+	if err != nil {
+		c.Violation("replayed: configuration rejected", err.Error(), cs)
+		return
+	}
+	defer closeFn()
+	// the reference is that of the configuration the participant reports (store-merge: possibly the merged one)
+	rr, err := refs.get(syncOf(eff))
 	if err != nil {
 		c.Violation("replayed: configuration rejected", err.Error(), cs)
 		return
 	}
 	key := refReplKey(cs.SpaceId)
 	rr.set(c, key)
-	svc, builds, closeFn, err := buildReal(cs.Nodes, cs.Self, cs.Path)
-	if err != nil {
-		c.Violation("replayed: configuration rejected", err.Error(), cs)
-		return
-	}
-	defer closeFn()
 	c.Count("executions", int64(builds))
 	st := &stats{}
 	e := &evaluator{c: c, refs: refs, ids: []string{cs.SpaceId}, keys: []string{key}, forms: []string{idForm(cs.SpaceId)}, st: st,
 		seenDistinct: map[uint64]struct{}{}, vioLocal: map[string]int{}}
 	before := c.NViolations()
-	e.evalParticipant(svc, rr, cs.Nodes, cs.Self, cs.Path)
+	e.evalParticipant(svc, rr, eff, cs.Self, cs.Path)
 	if c.NViolations() == before {
 		fmt.Println("replay: case no longer violates the property")
 	}
